@@ -73,6 +73,7 @@ class VFuture(object):
         self._exc = None
         self._cbs = []
         self._cancelled = False
+        self._running = False     # set while World.run_task executes it: cancel() of a running task fails, as for the real Future
         self.label = label
 
     def done(self):
@@ -85,7 +86,7 @@ class VFuture(object):
         return False
 
     def cancel(self):
-        if self._done:
+        if self._done or self._running:
             return False
         self._cancelled = True
         self._done = True
@@ -176,6 +177,9 @@ class VExecutor(object):
         if wait and RT.sched is None:
             # ThreadPoolExecutor.shutdown(wait=True) returns after every queued task has run
             self.world.drain_executor(self)
+        elif wait and getattr(self.world, 'executor_join', None) is not None:
+            # engine S: a harness that models worker threads says how to wait for them
+            self.world.executor_join(self)
 
 
 class VScheduler(object):
@@ -553,6 +557,7 @@ class World(object):
         self.trace('task.run', label)
         if fut.cancelled():
             return
+        fut._running = True
         try:
             r = fn(*args, **kwargs)
         except WouldBlock:
@@ -560,8 +565,10 @@ class World(object):
         except BaseException as e:
             if not isinstance(e, Exception):
                 raise
+            fut._running = False
             fut.set_exception(e)
         else:
+            fut._running = False
             fut.set_result(r)
 
     def run_thread_task(self, index=0):
